@@ -186,7 +186,7 @@ def main(chk: Check) -> None:
     dump = WORK / f"select-{os.getpid()}.dump"
     res = tlc.run("Select.tla", cfg, workers=16, timeout=3000, extra=["-dump", str(dump)])
     chk.model(cfg, res, note="functional refinement of helpers.py/abstract.py satisfies every relation, all cases")
-    for dev, law in (("Select_ignoredir.cfg", "LawSort"), ("Select_wrongend.cfg", "LawBest"), ("Select_lesseq.cfg", "LawGreedy")):
+    for dev, law in (("Select_ignoredir.cfg", "LawSort"), ("Select_wrongend.cfg", "LawBest"), ("Select_lesseq.cfg", "LawGreedy"), ("Select_modgroups.cfg", "LawGroups")):
         chk.model(dev, tlc.run("Select.tla", dev, workers=8, timeout=600), expect=law,
                   note="named deviation: shows the law is not vacuous")
     states = tlaval.parse_dump(dump)
